@@ -216,6 +216,9 @@ def main():
     # the classic collision pairs
     for a, b in (('A B', 'A_B'), ("O'Neil", 'ONeil'), ('X"Y', 'XY'), ('A  B', 'A__B')):
         render_all(base_txns()[:2] + [T(a, 'Odd', 'Names', 10.0, 4, 1), T(b, 'Odd', 'Names', 20.0, 4, 2)], {'names': [a, b]})
+    # collisions of three and more names, and a real merchant named like a suffixed id
+    for group in (('A B', 'A_B', "'A_B'"), ("Joe's Cafe", 'Joes Cafe', 'Joes_Cafe_2'), ('Joes_Cafe_2', "Joe's Cafe", 'Joes Cafe'), ('X Y', 'X_Y', "X'_Y", 'X"_Y', 'X_Y_2', 'X_Y_3')):
+        render_all(base_txns()[:2] + [T(n, 'Odd', 'Names', 10.0 * (j + 1), 4, 1 + j) for j, n in enumerate(group)], {'names': list(group)})
     O.sample({'description': HOSTILE[0]})
     O.finish()
 
